@@ -55,3 +55,38 @@ Proof.
   intros Hs Ht Ha. cbn [a_step]. rewrite Hs. destruct (N.eqb_spec (todo s) 0); [lia|]. destruct (N.ltb_spec 0 (avail s)); [|lia].
   assert (Hb : 1 <= N.min (todo s) (avail s)) by lia. pose proof (clamp_bounds n 1 _ Hb). cbn. lia.
 Qed.
+
+(* ---------- both directions, abandoned waits ---------- *)
+(* a task suspended in a wait for direction d has either been woken already, or the poller's one-shot entry is armed FOR d
+   and the waker is stored *)
+Definition winv (s : wst) : Prop :=
+  forall d, susp s = Some d -> woken s = true \/ (parmed s = true /\ pint s = d /\ wk s = true).
+
+Lemma winv_step s o : winv s -> winv (w_step s o).
+Proof.
+  intros H d. destruct o as [d0 stay|b|b|]; cbn [w_step].
+  - destruct (match d0 with DR => lr s | DW => lw s end); cbn [susp woken parmed pint wk]; [discriminate|].
+    destruct stay; [|discriminate]. intros [= <-]. right. repeat split.
+  - cbn [susp woken parmed pint wk]. apply H.
+  - cbn [susp woken parmed pint wk]. apply H.
+  - destruct (parmed s && kready s (pint s)) eqn:E; cbn [susp woken parmed pint wk]; [|apply H].
+    intros Hs. left. destruct (H d Hs) as [W|(_ & _ & W)]; rewrite W; [reflexivity|apply orb_true_r].
+Qed.
+Lemma winv_run ops : winv (w_run ops).
+Proof.
+  unfold w_run. assert (H : winv w_init) by (intros d; cbn; discriminate).
+  revert H. generalize w_init. induction ops as [|o r IH]; intros s H; cbn; [exact H|]. apply IH. apply winv_step. exact H.
+Qed.
+(* no lost wake, whatever was waited for and abandoned before: once the fd is ready for the awaited direction, one dispatch
+   has the task woken *)
+Lemma w_woken_when_ready s d : winv s -> susp s = Some d -> kready s d = true -> woken (w_step s WDispatch) = true.
+Proof.
+  intros H Hs Hk. cbn [w_step]. destruct (H d Hs) as [W|(A & B & C)].
+  - destruct (parmed s && kready s (pint s)); cbn [woken]; rewrite W; reflexivity.
+  - rewrite A, B, Hk. cbn. rewrite C. apply orb_true_r.
+Qed.
+(* and nobody is woken without a cause: a dispatch wakes only when the armed interest is ready *)
+Lemma w_no_spurious_wake s : woken s = false -> woken (w_step s WDispatch) = true -> parmed s = true /\ kready s (pint s) = true.
+Proof.
+  intros H0 H1. cbn [w_step] in H1. destruct (parmed s) eqn:A; destruct (kready s (pint s)) eqn:B; cbn in H1; try congruence. split; reflexivity.
+Qed.
